@@ -54,10 +54,36 @@ func Value(t *rapid.T, cfg ValueCfg) model.V {
 		d := rapid.IntRange(31, 140).Draw(t, "vdeep")
 		v := g.scalar(t)
 		for i := 0; i < d; i++ {
+			// small siblings in front of and behind the deep child
+			pre, post := 0, 0
+			switch rapid.IntRange(0, 5).Draw(t, "vdsib") {
+			case 0:
+				pre = 1
+			case 1:
+				post = 1
+			case 2:
+				pre, post = 1, 2
+			}
 			if rapid.Bool().Draw(t, "vdobj") {
-				v = model.Obj(model.Member{Key: []byte("k"), Val: v})
+				var ms []model.Member
+				for j := 0; j < pre; j++ {
+					ms = append(ms, model.Member{Key: []byte("p"), Val: model.Bool(true)})
+				}
+				ms = append(ms, model.Member{Key: []byte("k"), Val: v})
+				for j := 0; j < post; j++ {
+					ms = append(ms, model.Member{Key: []byte{'q', byte('0' + j)}, Val: model.Null()})
+				}
+				v = model.Obj(ms...)
 			} else {
-				v = model.Arr(v)
+				var xs []model.V
+				for j := 0; j < pre; j++ {
+					xs = append(xs, model.Bool(true))
+				}
+				xs = append(xs, v)
+				for j := 0; j < post; j++ {
+					xs = append(xs, model.Null())
+				}
+				v = model.Arr(xs...)
 			}
 		}
 		return v
